@@ -69,8 +69,9 @@ def lens_plan(rnd, wl, pi, quick, idx):
     plan.append(("Distortion", dict(npts=4, dtype="f-theta", wls=pick())))
     plan.append(("GridDistortion", dict(npts=4, dtype="f-tan")))
     plan.append(("GridDistortion", dict(npts=(5 if idx % 4 == 0 else 6), dtype="f-theta" if idx % 2 else "f-tan", wl=pick()[0])))
-    plan.append(("FieldCurvature", dict(npts=4)))
-    plan.append(("FieldCurvature", dict(npts=3, wls=pick())))
+    # quick tier: two of the sampled fields per wavelength are judged (the edge and an inner one)
+    plan.append(("FieldCurvature", dict(npts=4, fc_fields=[3, 1 + idx % 2] if quick else None)))
+    plan.append(("FieldCurvature", dict(npts=3, wls=pick(), fc_fields=[2, idx % 2] if quick else None)))
     plan.append(("RmsSpotSizeVsField", dict(num_fields=3, dist="hexapolar", npar=1 if quick else 2)))
     plan.append(("RmsSpotSizeVsField", dict(num_fields=2, dist=d3[0] if d3[0] != "random_seeded" else "cross", npar=d3[1], wls=pick())))
     plan.append(("PupilAberration", dict(npts=5)))
@@ -163,7 +164,9 @@ def run_config(optic, kind, cfg, info, wl, pi, seed):
             if wls:
                 kw["wavelengths"] = list(wls)
             obj = _build(A.FieldCurvature, optic, **kw)
-            events += AR.fc_events(optic, obj, cfg, info, wl, pi)
+            n = cfg["npts"]
+            events += AR.fc_events(optic, obj, cfg, info, wl, pi,
+                                   fields_per_wl=cfg.get("fc_fields"))
     except Exception as ex:
         reports.append(("raises", {"call": "constructor", "exception": type(ex).__name__},
                         "%s(%s) raises %s: %s" % (kind, _cfg_text(cfg), type(ex).__name__, ex)))
@@ -230,10 +233,11 @@ def lens_task(task):
 # ------------------------------------------------------------------ spec -> code replay
 def replay_lens(nw, prim, nf):
     from optiland.optic import Optic
-    from optiland.materials import IdealMaterial
+    from optiland.materials import AbbeMaterial
     o = Optic()
     o.add_surface(index=0, thickness=math.inf)
-    o.add_surface(index=1, radius=60.0, thickness=4.0, material=IdealMaterial(n=1.6), is_stop=True)
+    # a dispersive glass: the centroids of different wavelengths differ, so the reference is observable
+    o.add_surface(index=1, radius=60.0, thickness=4.0, material=AbbeMaterial(1.62, 36.0), is_stop=True)
     o.add_surface(index=2, radius=-80.0, thickness=70.0)
     o.add_surface(index=3)
     o.set_aperture("EPD", 8.0)
@@ -399,7 +403,7 @@ def main(ctx):
     ctx.extra["contract_cases"] = len(cases)
     ctx.extra["negative_model_refuted"] = "reference wavelength chosen by the lens's primary index violates InvRef"
     # ---- 2. executions of the real code -----------------------------------
-    nlens = 14 if quick else 150
+    nlens = 10 if quick else 80
     samples = SAMPLES_QUICK if quick else [c.__name__ for c in G.sample_classes()
                                            if c.__name__ != "TelescopeObjective48Inch"]
     tasks = [("seed", ctx.seed * 7907 + i, i, quick) for i in range(nlens)]
@@ -410,7 +414,7 @@ def main(ctx):
     if quick:
         # every class, explicit lists first
         rcases.sort(key=lambda c: (c["wlarg"]["mode"] != "list"))
-        rcases = rcases[:360]
+        rcases = rcases[:160]
     with ProcessPoolExecutor(max_workers=16) as ex:
         results = list(ex.map(lens_task, tasks, chunksize=1))
         replays = list(ex.map(replay_task, rcases, chunksize=8))
@@ -433,14 +437,15 @@ def main(ctx):
     ctx.extra["lenses"] = nlens_ok
     ctx.extra["contract_cases_replayed"] = len(replays)
     ctx.extra["analysis_objects"] = nobj
-    ctx.exhaustive = not quick        # every contract case replayed in the thorough tier
-    verdicts = ctx.validate("Trace_Analyses", events, shards=16, count_traces=nobj)
+    ctx.extra["contract_cases_all_replayed"] = len(replays) == len(cases)
+    verdicts = ctx.validate("Trace_Analyses", events, shards=12 if quick else 16, count_traces=nobj)
     bykind, notes = {}, {}
     for e in events:
         bykind[e["analysis"]] = bykind.get(e["analysis"], 0) + 1
         for clause in verdicts[e["id"]]:
             if clause.startswith("~"):
-                notes[clause[1:]] = notes.get(clause[1:], 0) + 1
+                key = "%s: %s" % (e["analysis"].split(".")[0], clause[1:])
+                notes[key] = notes.get(key, 0) + 1
                 continue
             ctx.report(clause, e["cls"], "%s, %s(%s): clause %s fails" % (e["lens"], e["analysis"], e["cfg"], clause),
                        {"lens": e["lens"], "analysis": e["analysis"], "cfg": e["cfg"], "clause": clause,
@@ -461,34 +466,51 @@ def main(ctx):
                         "centroid": [float(undy(v)) for v in e["cen"]], "rms": [float(undy(v)) for v in e["rms"]]})
             break
     # ---- 3. calibration ------------------------------------------------------
-    good = [e for e in events if not [c for c in verdicts[e["id"]] if not c.startswith("~")]]
+    good = [e for e in events if not [c for c in verdicts[e["id"]] if c != "~coddington_not_spherical"]]
     rnd.shuffle(good)
-    per_kind = 3 if quick else 10
+    per_kind = 2 if quick else 8
     taken, cal, expect = {}, [], {}
+    def ckind(e):      # field-curvature events on all-spherical systems also calibrate Coddington's clause
+        if e["kind"] == "fc" and all(s_["sph"] for s_ in e["surf"]) and any(not s_["flat"] for s_ in e["surf"]):
+            return "fc_sph"
+        return e["kind"]
     for e in good:
-        if taken.get(e["kind"], 0) >= per_kind:
+        if taken.get(ckind(e), 0) >= per_kind:
             continue
         cs = corruptions(e)
         if not cs:
             continue
-        taken[e["kind"]] = taken.get(e["kind"], 0) + 1
+        taken[ckind(e)] = taken.get(ckind(e), 0) + 1
         for c, clauses in cs:
             c["id"] = len(cal)
             expect[c["id"]] = clauses
             cal.append(c)
-    need = {"spot", "ee", "fan", "dist", "grid", "pupil", "fc", "op", "oprms"}
-    if need - set(taken):
-        raise T.MachineryError("calibration: no accepted event of kind %s" % sorted(need - set(taken)))
-    cv = ctx.validate("Trace_Analyses", cal, shards=16, count_traces=0)
+    need = {"spot", "ee", "fan", "dist", "grid", "pupil", "fc", "fc_sph", "op", "oprms"}
+    present = {ckind(e) for e in events} | {e["kind"] for e in events}
+    rejected = {ckind(e) for e in events if [c for c in verdicts[e["id"]] if not c.startswith("~")]}
+    if need - present:
+        raise T.MachineryError("no event of kind %s was produced" % sorted(need - present))
+    # a kind none of whose events was accepted has already been reported as violated; its clauses
+    # are calibrated by the witness tables of MC_Analyses only
+    uncal = sorted(need - set(taken))
+    if set(uncal) - rejected:
+        raise T.MachineryError("calibration: no accepted event of kind %s" % sorted(set(uncal) - rejected))
+    cv = ctx.validate("Trace_Analyses", cal, shards=4 if quick else 12, count_traces=0) if cal else {}
     missed = [(cid, expect[cid], cv[cid]) for cid in expect if not (set(cv[cid]) & set(expect[cid]))]
     fired = sorted({c for cid in expect for c in cv[cid] if c in expect[cid]})
-    ctx.extra["calibration"] = {"corruptions": len(cal), "missed": len(missed), "clauses_fired": fired}
+    ctx.extra["calibration"] = {"corruptions": len(cal), "missed": len(missed), "clauses_fired": fired,
+                                "kinds_without_accepted_event": uncal}
     if missed:
         raise T.MachineryError("corrupted analysis outputs not rejected (spec too permissive): %s" % missed[:3])
-    for c in ("centroid", "rms", "geo", "fan_value", "ee_monotone", "ee_total", "dist_value", "grid_max",
-              "pupil_value", "fc_parabasal_t", "coddington_t", "operand", "operand_rms"):
-        if c not in fired and not (c in ("centroid",) and "reference" in fired):
-            raise T.MachineryError("calibration never exercised clause %s" % c)
+    must = {"spot": ("rms", "geo"), "ee": ("ee_monotone", "ee_total"), "fan": ("fan_value",), "dist": ("dist_value",),
+            "grid": ("grid_max",), "pupil": ("pupil_value",), "fc": ("fc_parabasal_t",), "fc_sph": ("coddington_t", "fc_cert"),
+            "op": ("operand",), "oprms": ("operand_rms",)}
+    for kd, clauses in must.items():
+        for c in clauses:
+            if kd in taken and c not in fired:
+                raise T.MachineryError("calibration never exercised clause %s" % c)
+    if "spot" in taken and not ({"centroid", "reference"} & set(fired)):
+        raise T.MachineryError("calibration never exercised clause centroid")
     ctx.assumptions += [
         "the independently traced rays (Optic.trace_generic at the contract's fields, wavelengths and pupil samples) are data; their own correctness is C02/C03's business",
         "pupil sample positions come from optiland.distribution (only their number and the fan grids are stated by the contract); no lens used has vignetting factors",
